@@ -72,6 +72,9 @@ func domainExcluded(gen string, q string) string {
 	if reHandlerSqlexception.MatchString(q) {
 		return "F31-handler-for-sqlexception" // known hang, replayed as a pinned witness
 	}
+	if selfNamedAlias(q) {
+		return "self-named-table-alias" // known hang (join planning never returns), replayed as a pinned witness
+	}
 	if reGlobalState.MatchString(q) {
 		return "process-global-setting" // would make later cases of the worker irreproducible
 	}
@@ -91,6 +94,25 @@ func domainExcluded(gen string, q string) string {
 		}
 	}
 	return ""
+}
+
+// selfNamedAlias reports a table reference aliased by its own name (FROM u u / JOIN u AS u).
+func selfNamedAlias(q string) bool {
+	toks := g12lib.Tokens(q)
+	for i := 0; i+2 < len(toks); i++ {
+		k := strings.ToUpper(toks[i])
+		if k != "FROM" && k != "JOIN" && k != "," {
+			continue
+		}
+		a, b := toks[i+1], toks[i+2]
+		if strings.ToUpper(b) == "AS" && i+3 < len(toks) {
+			b = toks[i+3]
+		}
+		if len(a) > 0 && (a[0] == '_' || (a[0] >= 'a' && a[0] <= 'z') || (a[0] >= 'A' && a[0] <= 'Z')) && strings.EqualFold(strings.Trim(a, "`"), strings.Trim(b, "`")) {
+			return true
+		}
+	}
+	return false
 }
 
 var readOnlyFirst = map[string]bool{"SELECT": true, "WITH": true, "EXPLAIN": true, "SHOW": true, "DESCRIBE": true, "DESC": true, "TABLE": true, "VALUES": true, "": true}
